@@ -1,0 +1,10 @@
+//go:build !verif
+// +build !verif
+
+package parser
+
+// verifState is embedded in Parser; empty when the hook is disabled.
+type verifState struct{}
+
+// verifPull is the disabled form of the verification hook (see verif_on.go).
+func (p *Parser) verifPull() {}
